@@ -225,8 +225,86 @@ def gen_copy_flow_case(rng):
         ops.append(['copy_flow', 0, s, ids, rng.random() < 0.75, rng.random() < 0.3, phase])
     return {'streams': streams, 'ops': ops}
 
+def gen_alias_case(rng):
+    """histories over several stream objects on one flow data: flow proxies of single-phase streams (own phase)
+    and per-phase sub-streams multistream[p] handed out before the history starts"""
+    ns = rng.randint(2, 4)
+    streams = []
+    for j in range(ns):
+        sd = gen_stream(rng, pkg=rng.choice([0, 0, 1, 2, 4]))
+        if j == 0 and sd['multi']:
+            sd = gen_stream(rng, pkg=sd['pkg'])
+        streams.append(sd)
+    if not any(not s['multi'] for s in streams):
+        streams[0] = dict(gen_stream(rng, pkg=0), multi=False, phases=['l'], flows=[[float(rng.choice(VALS)) for _ in PKGS[0]]])
+    if not any(s['multi'] for s in streams) and rng.random() < 0.7:
+        k = rng.choice([0, 1, 2])
+        ph = sorted(rng.sample(['g', 'l', 's'], 2))
+        streams.append({'pkg': k, 'multi': True, 'phases': ph,
+                        'flows': [[float(rng.choice(VALS)) if rng.random() < 0.6 else 0. for _ in PKGS[k]] for _ in ph]})
+    ns = len(streams)
+    handles = []
+    for _ in range(rng.choice([1, 2, 2, 3])):
+        j = rng.randrange(ns)
+        if streams[j]['multi']:
+            handles.append(['view', j, rng.choice(streams[j]['phases'])])
+        else:
+            handles.append(['proxy', j, rng.choice(['l', 'g', 's', 'L', streams[j]['phases'][0]])])
+    nh = ns + len(handles)
+    cell = list(range(ns)) + [h[1] for h in handles]
+    views = [k for k in range(ns, nh) if handles[k - ns][0] == 'view']
+    nonviews = [k for k in range(nh) if k not in views]
+    empties = []
+    if rng.random() < 0.6:      # empty streams accompany a single non-empty inlet
+        streams_extra = dict(gen_stream(rng, pkg=streams[0]['pkg']), multi=False, phases=[rng.choice(['l', 'g'])])
+        streams_extra['flows'] = [[0.] * len(PKGS[streams_extra['pkg']])]
+        streams_extra.pop('order', None)
+    ops = []
+    for _ in range(rng.choice([2, 3, 3, 4])):
+        kind = rng.choice(['mix_alias1', 'mix_alias1', 'mix_aliasn', 'mix_new_phase', 'mix_from_view', 'split', 'split_multi',
+                           'sep', 'scale', 'copy_flow', 'mul'])
+        r = rng.choice(nonviews)
+        same = [k for k in range(nh) if k != r and cell[k] == cell[r]]
+        if kind == 'mix_alias1':
+            # one non-empty inlet that shares the receiver's data (or is one of its sub-streams): copy_like path
+            ins = [rng.choice(same)] if same else [rng.randrange(nh)]
+            ops.append(['mix', r, ins, rng.random() < 0.8, 0])
+        elif kind == 'mix_aliasn':
+            ins = [rng.randrange(nh) for _ in range(rng.choice([2, 3]))] + ([rng.choice(same)] if same else [])
+            rng.shuffle(ins)
+            ops.append(['mix', r, ins, rng.random() < 0.4, 0])
+        elif kind == 'mix_new_phase':
+            multis = [k for k in range(ns) if streams[k]['multi']]
+            r = rng.choice(multis) if multis else r
+            ins = [rng.randrange(nh) for _ in range(rng.choice([1, 2, 3]))]
+            ops.append(['mix', r, ins, rng.random() < 0.3, 0])
+        elif kind == 'mix_from_view':
+            ins = ([rng.choice(views)] if views else []) + [rng.randrange(nh) for _ in range(rng.choice([0, 1, 2]))]
+            ops.append(['mix', r, ins, rng.random() < 0.4, 0])
+        elif kind in ('split', 'split_multi'):
+            multis = [k for k in range(ns) if streams[k]['multi']]
+            f = rng.choice(multis) if (kind == 'split_multi' and multis) else rng.randrange(nh)
+            outs = [k for k in nonviews if k != f]
+            if len(outs) >= 2:
+                s1, s2 = rng.sample(outs, 2)
+                sp = float(rng.choice(SPLITS)) if rng.random() < 0.6 else [float(rng.choice(SPLITS)) for _ in PKGS[streams[cell[f]]['pkg']]]
+                ops.append(['split', f, s1, s2, sp, rng.random() < 0.6])
+        elif kind == 'sep':
+            ops.append(['sep', r, rng.randrange(nh)])
+        elif kind == 'scale':
+            ops.append(['scale', r, float(rng.choice(KS))])
+        elif kind == 'copy_flow':
+            s = rng.choice([k for k in range(nh) if cell[k] != cell[r]] or [r])
+            ids = None if rng.random() < 0.5 else rng.sample(PKGS[streams[cell[s]]['pkg']], 1)
+            ops.append(['copy_flow', r, s, ids, rng.random() < 0.6, False, None])
+        else:
+            ops.append(['mul', rng.randrange(nh), float(rng.choice(KS))])
+    return {'streams': streams, 'handles': handles, 'ops': ops}
+
 def gen_case(rng):
     u = rng.random()
+    if u > 0.86:
+        return gen_alias_case(rng)
     if u < 0.15:
         return gen_cache_case(rng)
     if u < 0.27:
@@ -330,12 +408,54 @@ def apply_op(store, op):
     else:
         raise ValueError(name)
 
+def build_store(case):
+    """the base streams plus, for histories with aliases, other stream objects on the same flow data:
+    ['proxy', j, phase] = streams[j].flow_proxy() with its own phase; ['view', j, p] = streams[j][p]"""
+    store = [build(sd) for sd in case['streams']]
+    for h in case.get('handles', []):
+        if h[0] == 'proxy':
+            x = store[h[1]].flow_proxy()
+            x.phase = h[2]
+        else:
+            x = store[h[1]][h[2]]
+        store.append(x)
+    return store
+
+def handle_cells(case):
+    n = len(case['streams'])
+    return list(range(n)) + [h[1] for h in case.get('handles', [])]
+
+def in_fragment(case, store, op):
+    """mirror of Model.safe_op: in a history with aliases an operation may replace a stream's indexer only
+    when no other stream object shares its data (otherwise the outcome is outside the modelled fragment)"""
+    if not case.get('handles'):
+        return True
+    tmo = env()['tmo']
+    n = len(case['streams'])
+    cells = handle_cells(case) + list(range(len(handle_cells(case)), len(store)))      # products of * own their data
+    def is_view(k): return n <= k < n + len(case['handles']) and case['handles'][k - n][0] == 'view'
+    def exclusive(k): return (k < n or k >= n + len(case['handles'])) and cells.count(cells[k]) == 1
+    def multi(k): return isinstance(store[k], tmo.MultiStream)
+    name = op[0]
+    if name == 'mix':
+        _, r, ins, eb, hf = op
+        return (not is_view(r)) and (exclusive(r) or (hf == 0 and ((not eb) or multi(r) or all(not multi(i) for i in ins))))
+    if name == 'split':
+        _, f, s1, s2, sp, eb = op
+        def inplace(k): return (not multi(k)) and ((not multi(f)) or ((not eb) and not multi(s1) and not multi(s2)))
+        return (not is_view(s1)) and (not is_view(s2)) and (exclusive(s1) or inplace(s1)) and (exclusive(s2) or inplace(s2))
+    if name in ('sep', 'copy_flow', 'scale'):
+        return not is_view(op[1])
+    return True
+
 def run_impl(case):
     clear_caches()
-    store = [build(sd) for sd in case['streams']]
+    store = build_store(case)
     out = {'init': [snap(s) for s in store], 'n_ok': 0, 'error': None}
     out['ops'] = []
     for op in case['ops']:
+        if not in_fragment(case, store, op):
+            break                     # would leave other stream objects behind: outside the modelled fragment
         if op[0] == 'copy_flow':
             if op[1] == op[2]:
                 break                 # copying a stream onto itself: not modelled, history ends here
@@ -389,13 +509,29 @@ def cop(o):
         return f'(OMul {cnat(o[1])} {q(o[2])})'
     raise ValueError(n)
 
+def chandle(h):
+    return f'(HProxy {cnat(h[1])} {PHC[h[2]]})' if h[0] == 'proxy' else f'(HView {cnat(h[1])} {PHC[h[2]]})'
+
+def castore(case, out):
+    n = len(case['streams'])
+    cells = clist([cstream(s) for s in out['init'][:n]])
+    hs = clist([f'(HCell {cnat(j)})' for j in range(n)] + [chandle(h) for h in case['handles']])
+    return f'(mka {cells} {hs})'
+
 def coq_case(case, out):
+    if case.get('handles'):
+        ops = clist([cop(o) for o in out['ops']])
+        e = 'None' if out['error'] is None else f'(Some {ERR.get(out["error"], "EOther")})'
+        return f'(arun_eqb {castore(case, out)} {ops} {cnat(out["n_ok"])} {e} {clist([cstream(s) for s in out["final"]])})'
     st = clist([cstream(s) for s in out['init']])
     ops = clist([cop(o) for o in out['ops']])
     e = 'None' if out['error'] is None else f'(Some {ERR.get(out["error"], "EOther")})'
     return f'(run_eqb {st} {ops} {cnat(out["n_ok"])} {e} {clist([cstream(s) for s in out["final"]])})'
 
 def coq_show(case, out):
+    if case.get('handles'):
+        ops = clist([cop(o) for o in out['ops']])
+        return f'(match fst (arun_upto {castore(case, out)} {ops} {cnat(out["n_ok"] + 1)}) with Ok a => views (cells a) (hs a) | Err e => Err e end)'
     st = clist([cstream(s) for s in out['init']])
     ops = clist([cop(o) for o in out['ops']])
     return f'(run_upto {st} {ops} {cnat(out["n_ok"] + 1)})'
@@ -453,15 +589,42 @@ def covers(recv, t):
 def kind_of(s):
     return 'M' if isinstance(s, env()['tmo'].MultiStream) else 'S'
 
+def dicts_of(s):
+    d = s.imol.data
+    return {id(r.dct) for r in d.rows} if hasattr(d, 'rows') else {id(d.dct)}
+
+def shares(a, b):
+    """two stream objects on (partly) the same flow data: flow_proxy / link_with / multistream[phase]"""
+    return a is b or bool(dicts_of(a) & dicts_of(b))
+
+def alias_consistency(case, store, name):
+    """every other stream object on the same flow data keeps showing that data"""
+    n = len(case['streams'])
+    for k, h in enumerate(case.get('handles', [])):
+        x, parent = store[n + k], store[h[1]]
+        if h[0] == 'proxy':
+            if kind_of(parent) == 'S' and not same_tot(totals(x), totals(parent)):
+                return f'alias:flow_proxy: after {name} the proxy of stream {h[1]} shows {totals(x)} but the stream holds {totals(parent)}'
+        else:
+            if kind_of(parent) == 'M' and h[2] in parent.phases:
+                row = np.asarray(parent.imol[h[2]].to_array() if hasattr(parent.imol[h[2]], 'to_array') else parent.imol[h[2]], float)
+                mine = np.asarray(x.mol.to_array(), float)
+                if not np.allclose(row, mine, rtol=1e-9, atol=0):
+                    return (f'alias:sub-stream: after {name} the sub-stream [{h[2]!r}] of MultiStream {h[1]} shows {mine.tolist()} '
+                            f'but the MultiStream holds {row.tolist()} in that phase')
+    return None
+
 def oracle(case):
     """The property evaluated directly on the implementation: per-chemical conservation, and the
     operation must return a result within the property's preconditions."""
     tmo = env()['tmo']
     clear_caches()
-    store = [build(sd) for sd in case['streams']]
+    store = build_store(case)
     for op in case['ops']:
         name = op[0]
         if name == 'copy_flow' and op[1] == op[2]:
+            return None
+        if not in_fragment(case, store, op):
             return None
         moved_msg = copy_flow_moves(store, op) if name == 'copy_flow' else None
         tot0 = [totals(s) for s in store]
@@ -490,7 +653,7 @@ def oracle(case):
                 if not same_tot(totals(store[r]), expect):
                     return f'{where}: per-chemical totals of the receiver {totals(store[r])} != sum of the inlets {expect}'
             for i in range(len(tot0)):
-                if i != r and not same_tot(totals(store[i]), tot0[i]):
+                if i != r and not shares(store[i], store[r]) and not same_tot(totals(store[i]), tot0[i]):
                     return f'{where}: inlet/bystander stream {i} was modified'
         elif name == 'split':
             _, f, s1, s2, sp, eb = op
@@ -506,7 +669,7 @@ def oracle(case):
                 if pre and raised != 'UndefinedPhase':
                     return f'{where}: raises {raised}'
                 return None
-            if s1 != s2:
+            if s1 != s2 and not shares(store[s1], store[s2]) and not shares(store[f], store[s1]) and not shares(store[f], store[s2]):
                 if f != s1 and not same_tot(totals(store[s1]), e1):
                     return f'{where}: first outlet {totals(store[s1])} != split*feed {e1}'
                 if f != s2 and s1 != s2 and not same_tot(totals(store[s2]), e2):
@@ -524,13 +687,13 @@ def oracle(case):
                 exp = {n: tot0[r][n] - tot0[o][n] for n in NAMES}
                 if not same_tot(totals(store[r]), exp):
                     return f'separate_out:recv={kinds[r]}:other={kinds[o]}: totals {totals(store[r])} != receiver - other {exp}'
-                if not same_tot(totals(store[o]), tot0[o]):
+                if not shares(store[r], store[o]) and not same_tot(totals(store[o]), tot0[o]):
                     return 'separate_out: the separated stream was modified'
         elif name == 'copy_flow':
             d, s, ids, remove, exclude = op[1:6]
             if raised: return None
             if moved_msg: return moved_msg
-            if kinds[d] == 'M': continue
+            if kinds[d] == 'M' or shares(store[d], store[s]): continue
             names = NAMES if ids is None else ([ids] if isinstance(ids, str) else list(ids))
             moved = [n for n in NAMES if (n in names) != bool(exclude)] if ids is not None else ([] if exclude else NAMES)
             src_ids = set(store[s].chemicals.IDs)
@@ -557,6 +720,8 @@ def oracle(case):
                 return 'mul: the operand was modified'
         if raised:
             return None
+        msg = alias_consistency(case, store, name)
+        if msg: return msg
     return None
 
 def phases_info(s):
